@@ -9,8 +9,8 @@
     the extracted [ledger_check] judges every recorded trace. *)
 From Coq Require Import NArith List Bool String FMapPositive Permutation.
 From XV Require Import Gen.GenC18DomHeap Gen.GenC18Init.
-From XV Require Import C18.Spec18 C18.Model18 C18.Model18X C18.Model18A C18.Model18I C18.Model18M.
-From XV Require Import C18.Proofs18a C18.Proofs18b C18.Proofs18c C18.Proofs18d C18.Proofs18e C18.Proofs18f C18.Proofs18g.
+From XV Require Import C18.Spec18 C18.Model18 C18.Model18X C18.Model18A C18.Model18I C18.Model18M C18.Model18G.
+From XV Require Import C18.Proofs18a C18.Proofs18b C18.Proofs18c C18.Proofs18d C18.Proofs18e C18.Proofs18f C18.Proofs18g C18.Proofs18h.
 Import ListNotations.
 Local Open Scope N_scope.
 
@@ -264,6 +264,40 @@ Example msgloader_run :
   (None, None, [EStrAlloc (GmUser 4); EStrAlloc (GmUser 4); EStrFree (GmUser 4) (GmUser 4); EStrFree (GmUser 4) (GmUser 4);
                 EStrAlloc (GmUser 5); EStrFree (GmUser 5) (GmUser 5)]).
 Proof. vm_compute. reflexivity. Qed.
+
+(** ---- 4b. grammar ownership (who deletes a Grammar) ----------------------------------------------------------- *)
+(** For EVERY sequence of parses (caching on/off, ending before the DOCTYPE or reaching the re-keying of the DTD grammar from
+    "[dtd]" to the system id through orphanGrammar/putGrammar), pool lock/unlock between parses and resolver resets:
+    no grammar is owned by both the pool and the resolver's bucket, none is dropped, and the destructors of resolver and pool
+    delete every grammar exactly once.  [bf = true] (orphanGrammar looks into the bucket first) needs no hypothesis;
+    for the code as it is ([bf = false]) the statement holds when no caching parse ends before the DOCTYPE ([gop_ok]). *)
+Theorem T18_grammar_single_owner : forall bf ops, Forall (gop_ok bf) ops ->
+  let st := grun bf ginit ops in
+  NoDup (map snd (g_pool st) ++ map snd (g_bucket st)) /\ g_orphaned st = [] /\ NoDup (final_deletes st).
+Proof. exact grammar_single_owner. Qed.
+Print Assumptions T18_grammar_single_owner.
+
+(** finding C18-DG-GRAMMAR-DOUBLE-OWNED on the model of the code as it is: a caching parse that ends before the DOCTYPE, then a parse
+    of a document with an external subset: the second grammar (id 2) ends up in BOTH owners, the first (id 1) is dropped, and the
+    destructors delete grammar 2 twice *)
+Theorem T18_grammar_double_owner_refuted :
+  let st := grun false ginit [GParse true true 7; GParse true false 7] in
+  g_pool st = [(7, 2)] /\ g_bucket st = [(0, 2)] /\ g_orphaned st = [1] /\ final_deletes st = [2; 2].
+Proof. vm_compute. repeat split; reflexivity. Qed.
+Print Assumptions T18_grammar_double_owner_refuted.
+
+(** the same history with the repaired order: single owner, nothing dropped *)
+Example grammar_repaired_history :
+  let st := grun true ginit [GParse true true 7; GParse true false 7; GLock; GParse true false 8; GUnlock; GParse false false 9] in
+  (g_pool st, g_bucket st, g_orphaned st, g_deleted st) = ([(7, 2); (0, 1)], [(0, 4)], [], [3]).
+Proof. vm_compute. reflexivity. Qed.
+
+(** the variant /repo has (the translator reads which owner GrammarResolver::orphanGrammar asks first) *)
+Theorem T18_grammar_as_built : forall ops, Forall (gop_ok orphan_bucket_first) ops ->
+  let st := grun orphan_bucket_first ginit ops in
+  NoDup (map snd (g_pool st) ++ map snd (g_bucket st)) /\ g_orphaned st = [] /\ NoDup (final_deletes st).
+Proof. exact (grammar_single_owner orphan_bucket_first). Qed.
+Print Assumptions T18_grammar_as_built.
 
 (** ---- 5. generated obligations (Gen/GenC18Init.v is rewritten from /repo on every run) --------------------- *)
 (** every initializeX() of XMLInitializer::initializeStaticData has its terminateX() in terminateStaticData, in
